@@ -365,17 +365,46 @@ Theorem fresh_solver_per_call :
 Proof. split; [discriminate|]. repeat split; vm_compute; reflexivity. Qed.
 Print Assumptions fresh_solver_per_call.
 
-(** ** non-vacuity *)
-(** the contract is satisfiable, and a successful run exists (computed) *)
-Example contract_satisfiable : rootfind_contract (fun _ a _ _ => mkRf a false []).
+(** the sign change lies within the configured tolerance on either side of the velocity *)
+Corollary sign_change_within_tolerance :
+  forall P rootfind b s0 vmin vmax g0 optMin optMax fuel o v,
+  let c := cfg b in
+  rootfind_contract rootfind -> vmin < vmax ->
+  solveWall P rootfind c s0 vmin vmax g0 optMin optMax fuel = RDone o ->
+  r_success (o_res o) = true -> r_velocity (o_res o) = Some v ->
+  exists cMin cMax lo hi,
+    let W := wrapper P c (atol2 c cMin cMax) cMin cMax (o_vmin o) vmax in
+    let tol := c_errTol b + brentq_rtol * Qabs v in
+    v - tol < lo /\ lo <= v /\ v <= hi /\ hi < v + tol /\ W lo <= 0 /\ 0 <= W hi.
 Proof.
-  intros W a b xtol Hab Ha Hb. unfold brentq_spec; cbn. split; [lra|]. split; [lra|]. discriminate.
+  intros P rootfind b s0 vmin vmax g0 optMin optMax fuel o v c HRF Hlt H Hs Hv.
+  destruct (success_brackets P rootfind b s0 vmin vmax g0 optMin optMax fuel o v HRF Hlt H Hs Hv)
+    as (s & tr & cMin & cMax & _ & _ & _ & _ & _ & _ & lo & hi & A & B & C & D & E & F & G).
+  exists cMin, cMax, lo, hi. cbv zeta. repeat split; try assumption; lra.
 Qed.
+Print Assumptions sign_change_within_tolerance.
+
+(** ** non-vacuity *)
+(** the contract is satisfiable by a converging root finder (bisection, for EVERY function),
+    and with it a run of the model succeeds (computed), so that [success_brackets] applies *)
+Theorem contract_satisfiable : rootfind_contract bisect_rf.
+Proof. exact bisect_contract. Qed.
+Print Assumptions contract_satisfiable.
 
 Definition demo_P := Pcurve gen_atol0 (mkSeg 0 (-(2 # 5)) 1 true true true true 100 90 [1] [0]) [].
+Definition base1 : config :=
+  mkConfig (1 # 10) (1 # 10) (7 # 10) (1 # 2) 10 200 10 200 (1 # 128) 10 (-10) 10 0 0 0 0 (fun _ => 0).
+Example success_reachable :
+  exists o v, solveWall demo_P bisect_rf (cfg base1) (mkState 0 false false) (1 # 100) (13 # 20)
+                        (mkGuess [1] [0]) None None 10 = RDone o /\
+              r_success (o_res o) = true /\ r_velocity (o_res o) = Some v /\
+              r_type (o_res o) = Deflagration /\ Qabs (v - (2 # 5)) < 1 # 10.
+Proof. do 2 eexists. split; [vm_compute; reflexivity|]. vm_compute. repeat split. Qed.
+
+(** the same with a recorded root-finder outcome, as in the correspondence cases *)
 Definition demo_rf : (Q -> Q) -> Q -> Q -> Q -> rfOut :=
   fun _ _ _ _ => mkRf (2 # 5) true [1 # 100; 13 # 20; 2 # 5].
-Example success_reachable :
+Example success_reachable_recorded :
   match solveWall demo_P demo_rf (cfg base0) (mkState 0 false false) (1 # 100) (13 # 20)
                   (mkGuess [1] [0]) None None 10 with
   | RDone o => r_success (o_res o) = true /\ r_velocity (o_res o) = Some (2 # 5) /\
